@@ -24,6 +24,8 @@ VERIF_FAIL = (
     'failed to meet its declared type invariant',
     'recommendation not met',
     'precondition not met',
+    'evaluates to false',           # assert(..) by (compute_only) refuted by evaluation
+    'expression simplifies to',
     'index in bounds',
     'assertion failed'
 )
